@@ -94,7 +94,7 @@ Lemma named1_agree : forall (s : sig) npos (nv : nat * V) x,
   wf_sig s = true -> ann_keys_ok s = true ->
   opt_is (s_varargs s) (fst nv) || opt_is (s_kwargs s) (fst nv) = false ->
   (opt_ann s (s_kwargs s) <> None -> nmem (fst nv) (keywordable s) = true -> ann s (fst nv) <> None) ->
-  bind_named1 s npos nv = Some x -> iter_named1 s nv = x.
+  bind_named1 s npos nv = Some x -> iter_named1 false s nv = x.
 Proof.
   intros s npos [n v] x Hwf Hk Hstar Hd2 H. simpl in *.
   apply orb_false_iff in Hstar. destruct Hstar as [Hva Hkw].
@@ -142,7 +142,7 @@ Lemma named_agree : forall (s : sig) npos (nvs : list (nat * V)) l,
   (forall nv, In nv nvs -> opt_is (s_varargs s) (fst nv) || opt_is (s_kwargs s) (fst nv) = false) ->
   (forall nv, In nv nvs -> opt_ann s (s_kwargs s) <> None -> nmem (fst nv) (keywordable s) = true ->
               ann s (fst nv) <> None) ->
-  all_some (map (bind_named1 s npos) nvs) = Some l -> map (iter_named1 s) nvs = l.
+  all_some (map (bind_named1 s npos) nvs) = Some l -> map (iter_named1 false s) nvs = l.
 Proof.
   intros s npos. induction nvs as [|nv nvs IH]; intros l Hwf Hk H1 H2 H.
   - simpl in H. inversion H. reflexivity.
@@ -168,7 +168,7 @@ Qed.
 Theorem iter_args_is_binding : forall (s : sig) (c : call) l,
   wf_sig s = true -> ann_keys_ok s = true -> bind s c = Some l ->
   kw_named_like_star s c = false -> kw_unannotated_with_kwargs s c = false ->
-  iter_args s c = l.
+  iter_args false s c = l.
 Proof.
   intros s c l Hwf Hk Hb Hd1 Hd2. unfold bind in Hb.
   destruct (c_star c) eqn:Est; [discriminate|]. destruct (c_starstar c) eqn:Ess; [discriminate|].
@@ -178,7 +178,7 @@ Proof.
   inversion Hb. subst l. clear Hb.
   unfold iter_args. rewrite Est, Ess.
   assert (Hp : iter_pos s 0 (c_pos c) = l1) by (apply pos_agree; simpl; exact E1).
-  assert (Hn : map (iter_named1 s) (c_named c) = l2).
+  assert (Hn : map (iter_named1 false s) (c_named c) = l2).
   { apply named_agree with (npos := length (c_pos c)); auto.
     - intros nv Hin. unfold kw_named_like_star in Hd1.
       exact (existsb_false_forall _ _ Hd1 nv Hin).
@@ -194,10 +194,58 @@ Qed.
 Corollary err_call_is_binding : forall (matchf : V -> formal -> bool) (s : sig) (c : call) l,
   wf_sig s = true -> ann_keys_ok s = true -> bind s c = Some l ->
   kw_named_like_star s c = false -> kw_unannotated_with_kwargs s c = false ->
-  err_call matchf s c =
+  err_call false matchf s c =
   existsb (fun vf => match snd vf with Some f => negb (matchf (fst vf) f) | None => false end) l.
 Proof.
   intros. unfold err_call. rewrite (iter_args_is_binding s c l); auto.
+Qed.
+
+(* ---- the FIXED code (fx = true): no deviation hypothesis, no well-formedness needed ------------------------ *)
+
+Lemma named1_agree_fixed : forall (s : sig) npos (nv : nat * V) x,
+  bind_named1 s npos nv = Some x -> iter_named1 true s nv = x.
+Proof.
+  intros s npos [n v] x H. unfold bind_named1 in H. unfold iter_named1. simpl in *.
+  destruct (nmem n (keywordable s)).
+  - destruct (nmem n (firstn npos (s_params s))); [discriminate|]. inversion H. reflexivity.
+  - destruct (s_kwargs s) as [kw|]; [|discriminate]. inversion H. reflexivity.
+Qed.
+
+Lemma named_agree_fixed : forall (s : sig) npos (nvs : list (nat * V)) l,
+  all_some (map (bind_named1 s npos) nvs) = Some l -> map (iter_named1 true s) nvs = l.
+Proof.
+  intros s npos. induction nvs as [|nv nvs IH]; intros l H.
+  - simpl in H. inversion H. reflexivity.
+  - simpl in H. destruct (bind_named1 s npos nv) as [x|] eqn:Ex; [|discriminate].
+    destruct (all_some (map (bind_named1 s npos) nvs)) as [l'|] eqn:El; [|discriminate].
+    simpl in H. inversion H. subst l. simpl. f_equal.
+    + apply named1_agree_fixed with (npos := npos). exact Ex.
+    + apply IH. reflexivity.
+Qed.
+
+(* MAIN, fixed code: on EVERY call CPython accepts, every passed argument is matched against the annotation the
+   binding associates with it *)
+Theorem iter_args_fixed_is_binding : forall (s : sig) (c : call) l,
+  bind s c = Some l -> iter_args true s c = l.
+Proof.
+  intros s c l Hb. unfold bind in Hb.
+  destruct (c_star c) eqn:Est; [discriminate|]. destruct (c_starstar c) eqn:Ess; [discriminate|].
+  destruct (nodup_names (map fst (c_named c)) && none_missing s c); [|discriminate].
+  destruct (bind_pos s (s_params s) (c_pos c)) as [l1|] eqn:E1; [|discriminate].
+  destruct (all_some (map (bind_named1 s (length (c_pos c))) (c_named c))) as [l2|] eqn:E2; [|discriminate].
+  inversion Hb. subst l. clear Hb.
+  unfold iter_args. rewrite Est, Ess.
+  assert (Hp : iter_pos s 0 (c_pos c) = l1) by (apply pos_agree; simpl; exact E1).
+  rewrite Hp, (named_agree_fixed s (length (c_pos c)) (c_named c) l2 E2).
+  destruct (s_varargs s); destruct (s_kwargs s); simpl; rewrite app_nil_r; reflexivity.
+Qed.
+
+Corollary err_call_fixed_is_binding : forall (matchf : V -> formal -> bool) (s : sig) (c : call) l,
+  bind s c = Some l ->
+  err_call true matchf s c =
+  existsb (fun vf => match snd vf with Some f => negb (matchf (fst vf) f) | None => false end) l.
+Proof.
+  intros. unfold err_call. rewrite (iter_args_fixed_is_binding s c l); auto.
 Qed.
 
 End Proofs.
@@ -220,11 +268,11 @@ Definition d2_call : call nat := {| c_pos := [1]; c_named := [(1, 5)]; c_star :=
 Lemma binding_refuted_w :
   (wf_sig d1_sig = true /\ ann_keys_ok nat d1_sig = true /\
    bind d1_sig d1_call = Some [(1, Some (FElem 7)); (5, Some (FElem 7))] /\
-   iter_args d1_sig d1_call = [(1, Some (FElem 7)); (5, Some (FKw 7))] /\
+   iter_args false d1_sig d1_call = [(1, Some (FElem 7)); (5, Some (FKw 7))] /\
    kw_unannotated_with_kwargs d1_sig d1_call = false) /\
   (wf_sig d2_sig = true /\ ann_keys_ok nat d2_sig = true /\
    bind d2_sig d2_call = Some [(1, None); (5, None)] /\
-   iter_args d2_sig d2_call = [(1, None); (5, Some (FElem 7))] /\
+   iter_args false d2_sig d2_call = [(1, None); (5, Some (FElem 7))] /\
    kw_named_like_star d2_sig d2_call = false).
 Proof. vm_compute. repeat split; reflexivity. Qed.
 
@@ -237,5 +285,6 @@ Definition d3_call : call nat := {| c_pos := [1]; c_named := [(1, 5)]; c_star :=
 Lemma crash_w :
   wf_sig d3_sig = true /\ ann_keys_ok nat d3_sig = true /\
   bind d3_sig d3_call = Some [(1, Some (FElem 7)); (5, Some (FElem 7))] /\
-  iter_args d3_sig d3_call = [(1, Some (FElem 7)); (5, Some (FCrash 7))].
+  iter_args false d3_sig d3_call = [(1, Some (FElem 7)); (5, Some (FCrash 7))] /\
+  iter_args true d3_sig d3_call = [(1, Some (FElem 7)); (5, Some (FElem 7))].
 Proof. vm_compute. repeat split; reflexivity. Qed.
